@@ -75,6 +75,26 @@ DOCS = {
     "unicode": 'def f(a: str = "\\u00e4\\u4e2d") -> str:\n    """\\u00dcberschrift \\u2013 with dashes \\u4e2d\\u6587.\n\n    Parameters\n    ----------\n    a : str\n        \\u00e4\\u00f6\\u00fc\n    """\n    ...\n',
     "raw-backslash": 'def f(a: str = "\\\\d+") -> str:\n    r"""Matches \\d+ and \\\\ and \\n.\n\n    Parameters\n    ----------\n    a : str\n        A pattern like \\w*.\n    """\n    ...\n',
 }
+ODD_TYPES = ["int | False | None", "5 | int | str", "str | True | int", '{"a", "b"} or None', "list of int", "callable", "int, optional", "array-like of shape (n,)",
+             "int or float, default=1.0", "dict[str, list[int | None]]", "Optional[Union[int, str]]", "tuple[int, ...]", "a.b.C", "'quoted'", "int | (str)", "[int, str]", "lambda x: x"]
+
+
+def _odd(style: str) -> str:
+    L = []
+    for k, ty in enumerate(ODD_TYPES):
+        if style == "numpy":
+            doc = f"Summary.\n\n    Parameters\n    ----------\n    p : {ty}\n        The p.\n\n    Returns\n    -------\n    {ty}\n        The result.\n"
+        elif style == "google":
+            doc = f"Summary.\n\n    Args:\n        p ({ty}): The p.\n\n    Returns:\n        {ty}: The result.\n"
+        else:
+            doc = f"Summary.\n\n    :param p: The p.\n    :type p: {ty}\n    :returns: The result.\n    :rtype: {ty}\n"
+        L.append(f'def odd{k}(p=None):\n    r"""{doc}    """\n    ...\n\n\nclass Odd{k}:\n    r"""Class.\n\n    Attributes\n    ----------\n    at : {ty}\n        The at.\n    """\n\n    at = None\n')
+    return "\n".join(L)
+
+
+DOCS["odd-types-numpy"] = _odd("numpy")
+DOCS["odd-types-google"] = _odd("google")
+DOCS["odd-types-rest"] = _odd("rest")
 HELPERS = "HELPER_CONST = 1\n\n\ndef helper_fun(a: int) -> int:\n    return a\n\n\nclass HelperCls:\n    pass\n"
 
 
